@@ -835,7 +835,10 @@ def generate(prop, run_seed, tier='quick', tolerate=frozenset()):
             w[name] = 0
     kinds = [x for x, v in w.items() if v > 0]
     wts = [w[x] for x in kinds]
-    n = min(60, 3 + int(crng.expovariate(1 / 12)))
+    deep = tier == 'thorough'
+    n = min(150 if deep else 60,
+            3 + int(crng.expovariate(1 / (24 if deep and crng.random() < .5
+                                          else 12))))
     ops = []
     hows = ['getitem_root', 'getitem_sub', 'chain', 'get_call']
     while len(ops) < n:
